@@ -332,10 +332,22 @@ def _rest(ck, repo):
                     lab = [l for m, l in evv.cfg.succ[n.id] if m == nodes[i + 1].id]
                     is_str = lab[0] if lab else None
             handled = any(n.kind == "handler" for n in nodes[:idx[0]])
-            seen.add((is_str, handled, val))
-        want = {("T", False, f"{ep[1]}.schema.find_type({ep[0]})"), ("T", True, ep[0]), ("F", False, ep[0])}
+            known = None  # the other spelling of "is it a known name": an explicit membership test instead of catching KeyError
+            for i, n in enumerate(nodes[:idx[0]]):
+                if n.kind == "test" and unparse(n.ast).replace(" ", "") == f"{ep[1]}.schema.has_type({ep[0]})":
+                    lab = [l for m, l in evv.cfg.succ[n.id] if m == nodes[i + 1].id]
+                    known = lab[0] if lab else None
+            seen.add((is_str, handled, known, val))
+        looked, kept = f"{ep[1]}.schema.find_type({ep[0]})", ep[0]
+        ok = {v for _, _, _, v in seen} == {looked, kept}
+        for is_str, handled, known, val in seen:
+            if val == looked:
+                ok = ok and is_str == "T" and not handled and known in (None, "T")
+            else:
+                ok = ok and (is_str == "F" or handled or known == "F")
+        ok = ok and any(v == kept and i == "T" for i, _, _, v in seen)  # an unknown *name* stays a name
         ck.ob("ensure_valid_runtime_type: a type *name* is looked up in this request's schema, an object type is taken as it is, an unknown name stays a name (and fails the object-type test)",
-              seen == want, ev, ft or ev.node, construct="runtime:name-lookup", detail=str(sorted(map(str, seen))))
+              ok, ev, ft or ev.node, construct="runtime:name-lookup", detail=str(sorted(map(str, seen))))
 
     # ---------------------------------------------------------------- R11
     # "spec-coerced arguments": the argument decision table and the per-declared-argument structure
@@ -831,9 +843,11 @@ def _wrapper_fold(ck, repo, g, side):
     for c in apps:
         pushed = unparse(c.args[0]) if c.args else ""
         conds = set(gv.conditions(c)) - {(unparse(w.test), "T")}
-        if "list_coercer" in pushed and conds == {(f"{tvar}.is_list_type", "T")}:
+        # the two flags are exclusive class constants of the two wrapper classes: the arms may come in either order
+        pos = {(t, o) for t, o in conds if o == "T"}
+        if "list_coercer" in pushed and pos == {(f"{tvar}.is_list_type", "T")} and conds - pos <= {(f"{tvar}.is_non_null_type", "F")}:
             kinds["is_list_type"] = c
-        elif "non_null_coercer" in pushed and (f"{tvar}.is_non_null_type", "T") in conds and (f"{tvar}.is_list_type", "T") not in conds:
+        elif "non_null_coercer" in pushed and pos == {(f"{tvar}.is_non_null_type", "T")} and conds - pos <= {(f"{tvar}.is_list_type", "F")}:
             kinds["is_non_null_type"] = c
     ck.ob(f"{g.name}: a list wrapper (and only a list wrapper) pushes the list coercer", "is_list_type" in kinds, g, w, construct="fold:list-arm")
     ck.ob(f"{g.name}: a non-null wrapper (and only it) pushes the non-null coercer", "is_non_null_type" in kinds, g, w, construct="fold:non-null-arm")
